@@ -198,6 +198,9 @@ type StructSpec struct {
 	External bool
 	Fields []FieldSpec
 	Extra  []string // extra Lean fields "name : Type := default"
+	// Defaults: Lean field name -> default value of a modelled field (so that structure literals written before the
+	// field was modelled keep their meaning)
+	Defaults map[string]string
 }
 
 // Ext describes a call that is not translated but modelled: `callee` is the printed callee expression with
@@ -1516,6 +1519,9 @@ func (t *tr) assignTo(lhs ast.Expr, val string) {
 			}
 			t.fail(l, "assignment to a field that is not modelled: %s", t.p.text(l))
 		}
+		if val == "none" && !strings.HasPrefix(f.T.Lean, "Option ") {
+			val = f.T.zero() // `x.f = nil` for a slice-typed field
+		}
 		t.emit("%s", set(t.update(bt.Lean, base, f.Lean, val)))
 		return
 	}
@@ -2086,6 +2092,11 @@ func (t *tr) rangeStmt(x *ast.RangeStmt) {
 		if t.spec.MapOrder == "" || x.Key == nil {
 			t.fail(x, "range over a map")
 		}
+		if strings.HasPrefix(ct.Lean, "Option List (") || ct.Lean == "Option GoRt.KV" {
+			// a nil-able map: ranging over nil visits nothing
+			coll = "(" + coll + ".getD [])"
+			ct = T{ct.Kind, "List (Bytes × Bytes)"}
+		}
 		coll = "(" + t.spec.MapOrder + " " + coll + ")"
 		if x.Value != nil {
 			// a map represented as the list of its (key, value) pairs
@@ -2567,7 +2578,11 @@ func (g *gen) emitStructs() {
 				g.report = append(g.report, map[string]any{"struct": ss.Go, "field": f.Go, "problem": "type " + got + " != " + f.GoType})
 				continue
 			}
-			fmt.Fprintf(&g.out, "  %s : %s\n", f.Lean, f.T.Lean)
+			if d, ok := ss.Defaults[f.Lean]; ok {
+				fmt.Fprintf(&g.out, "  %s : %s := %s\n", f.Lean, f.T.Lean, d)
+			} else {
+				fmt.Fprintf(&g.out, "  %s : %s\n", f.Lean, f.T.Lean)
+			}
 		}
 		for _, e := range ss.Extra {
 			fmt.Fprintf(&g.out, "  %s\n", e)
